@@ -3,6 +3,7 @@ pub mod c02;
 pub mod c03;
 pub mod c05;
 pub mod c06;
+pub mod c07;
 pub mod c08;
 pub mod common;
 pub mod c04;
@@ -16,6 +17,7 @@ pub fn run(cfg: &Cfg, rep: &mut Report) -> bool {
     "C03" => c03::run(cfg, rep),
     "C05" => c05::run(cfg, rep),
     "C06" => c06::run(cfg, rep),
+    "C07" => c07::run(cfg, rep),
     "C08" => c08::run(cfg, rep),
     "C04" => c04::run(cfg, rep),
     _ => return false,
